@@ -14,6 +14,9 @@ class Facts:
         for b in d["mir"]:
             self.mir.setdefault(b["def"], b)
         self.mir_elab = {b["def"]: b for b in d["mir_elab"]}
+        from . import symx as _symx
+        for b in self.hir.values():
+            _symx.WORLD[id(b)] = self.hir
         t = d["types"]
         self.adts = {a["path"]: a for a in t["adts"]}
         self.consts = {c["path"]: c for c in t["consts"]}
